@@ -30,7 +30,7 @@ from ..cfg import cfg_of
 from ..fold import Folder, RegexConst, Unfoldable, group_count
 from ..loader import AnalysisError, FuncInfo, dotted, norm, walk_no_nested
 from ..report import Ctx
-from ._c15_helpers import TEXT_KEYS, Flow, Leaf, Scope, codec_kind, escapes, expand, slice_peel, table_values, text_class
+from ._c15_helpers import TEXT_KEYS, CFn, CMade, CObj, Concrete, ConcreteRaise, Flow, Leaf, NotConcrete, Scope, codec_kind, escapes, expand, slice_peel, table_values, text_class
 
 LEVEL_TEXT = (
     "Static decision of structural clauses of C15 on /repo's current source: (R15.1) for every URL component, the "
@@ -46,7 +46,21 @@ LEVEL_TEXT = (
     "crosswise inverse compositions of UTF-8 and latin-1; (R15.5) the environ builder and the dev server store only "
     "tunnelled text in PATH_INFO / SCRIPT_NAME / QUERY_STRING and the request-side readers let none of it escape "
     "undecoded; (R15.6) DispatcherMiddleware writes back only untouched pieces of the tunnelled values it read, "
-    "SCRIPT_NAME first (segments peeled off the right end only into the remainder), on every path to the mounted app. "
+    "SCRIPT_NAME first (segments peeled off the right end only into the remainder), on every path to the mounted app; "
+    "(R15.7) sansio.utils.get_host gives back the Host value it was handed (or SERVER_NAME[:SERVER_PORT] when there is "
+    "none) with nothing removed but the default port of the scheme - ':80' for http / ws, ':443' for https / wss - as "
+    "an exact suffix: decided by constant propagation of about 3000 representative (scheme, host) pairs through the "
+    "syntax tree of the function (assignments, branches, loops, slicing, str methods, module-level tables, `re` on "
+    "constant patterns, helper functions of the package followed), the hosts being names, IPv4 and bracketed IPv6 "
+    "literals - among them names whose own last characters are characters of a port text found in the module - "
+    "with no port, the default ports, and ports that merely contain or end in those digits; a result that is "
+    "neither the given value nor the given value without that exact suffix names a different host (violation), a "
+    "statement or call whose value the inputs do not determine is an analysis error; (R15.8) the `args` property "
+    "found in the MRO of wrappers.request.Request, evaluated the same way on a query string with blank values and a "
+    "repeated key, hands the whole decoded query string to urllib's parse_qsl with keep_blank_values true (the "
+    "builder's urlencode writes a key with an empty value as 'k='), strict_parsing false, separator '&', no field "
+    "limit, UTF-8 - whether the options are written as keywords, positionally, through a spread dict, a helper or "
+    "functools.partial - and gives the list parse_qsl returns, every pair in order, to the multi-dict class. "
     "Helper functions the judged functions call are looked into (one level of extraction, arguments bound). Values are "
     "followed through the containers that hold them: list / tuple / dict displays, what is put into them in place "
     "(append / extend / insert / item and slice stores / update / setdefault), str.join, %-formatting and str.format, "
@@ -57,13 +71,20 @@ LEVEL_TEXT = (
     "unquoter may also go by index (range(len(pieces)), stride-2 in-place rewrite). A value whose origin is a call that "
     "is not looked into, a component handed to something that is not followed to urlunsplit, or an emission that "
     "cannot be classified is an analysis error, not a violation. It decides these necessary clauses, not the fixpoint law "
-    "over all URLs, not IDNA, and not the dispatcher's longest-mount choice / concatenation invariant."
+    "over all URLs, not IDNA, and not the dispatcher's longest-mount choice / concatenation invariant. Not decided "
+    "about the host: that a default port IS removed (a host that keeps ':80' names the same authority), the "
+    "bracketing of an IPv6 SERVER_NAME, the trusted-hosts test. Not decided about the query mapping: the writer side "
+    "(_urlencode drops only None values, iter_multi_items yields every pair) and the form-body reader's parse_qsl call "
+    "are C02-R2.5's; parse_qsl's own behaviour is trusted."
 )
 TRUSTED = [
     "CPython ast and re (the folded pattern is run on constants built from the folded table only)",
     "urllib.parse.quote percent-encodes every non-safe non-unreserved character as UTF-8 and always returns ASCII; urlsplit never leaves '?', '#' in path or '#' in query",
     "RFC 3986 section 2 character repertoire and section 3 component delimiters, WHATWG percent-encode sets, embedded as constants",
     "python codec alias table rows for utf-8, latin-1, ascii; latin-1 is total and maps byte b to U+00b",
+    "python's str / bytes / dict / tuple methods, slicing and `re` as the meaning of the same operations in the analysed source (R15.7 / R15.8 apply them to constants of the source and to the representative inputs; no werkzeug code is imported or run)",
+    "urllib.parse.parse_qsl(qs, keep_blank_values, strict_parsing, encoding, errors, max_num_fields, separator): parameter order and defaults; with keep_blank_values false a pair with an empty value is dropped",
+    "default ports: http / ws 80, https / wss 443 (RFC 9110 4.2, RFC 6455 3)",
 ]
 ASSUMPTIONS = [
     "input strings contain no lone surrogates",
@@ -225,6 +246,8 @@ def run(ctx: Ctx) -> None:
     ctx.rule("R15.4", "_wsgi_encoding_dance = decode(latin-1) o encode(utf-8), _wsgi_decoding_dance = decode(utf-8) o encode(latin-1): crosswise inverse, both codecs total on the other's output")
     ctx.rule("R15.5", "every value stored under PATH_INFO / SCRIPT_NAME / QUERY_STRING by EnvironBuilder.get_environ and the dev server is latin-1 tunnelled (encoding dance) or an ASCII constant; in Request.__init__, Map.bind_to_environ and get_path_info no read of these keys escapes other than decoded (decoding dance) or as raw bytes (.encode(latin-1))")
     ctx.rule("R15.6", "DispatcherMiddleware stores only untouched pieces (slices, concatenations, ASCII constants) of the tunnelled environ values, the new SCRIPT_NAME starts with the old one followed by PATH_INFO pieces, pieces peeled from the right are prepended to the remainder, and both keys are stored on every path to the mounted app")
+    ctx.rule("R15.7", "get_host returns the Host value with nothing removed but the default port of the scheme (':80' for http / ws, ':443' for https / wss) as an exact suffix: evaluated by constant propagation through the function on representative (scheme, host) pairs, among them hosts whose own last characters are characters of the port text")
+    ctx.rule("R15.8", "Request.args hands the whole query string to parse_qsl with blank values kept (the builder's urlencode writes a key with an empty value as 'k='), non-strict, separator '&', no field limit, UTF-8, and gives the list it returns to the multi-dict class as it is")
 
     urls = repo.module("urls")
     mk = repo.func("urls._make_unquote_part")
@@ -240,6 +263,8 @@ def run(ctx: Ctx) -> None:
     _r15_4(ctx)
     _r15_5(ctx)
     _r15_6(ctx)
+    _r15_7(ctx)
+    _r15_8(ctx)
 
 
 # ---------------------------------------------------------------------
@@ -1852,3 +1877,144 @@ def _peeled_end(sc: Scope, p: ast.AST, depth: int = 0) -> str | None:
         else:
             ends.add(None)
     return ends.pop() if len(ends) == 1 else None
+
+
+# ---------------------------------------------------------------------
+# R15.7  the host the request reports
+
+
+DEFAULT_PORT = {"http": "80", "ws": "80", "https": "443", "wss": "443"}
+_HOST_NAMES = ["example.org", "localhost", "spam", "a", "xn--n3h.example", "10.0.0.80", "192.168.4.34", "127.0.0.1", "node08", "node443", "h", "80", "443", "[::1]", "[2001:db8::80]", "[fe80::443]", ""]
+_PORT_TAILS = ["", ":80", ":443", ":8080", ":8443", ":180", ":4430", ":1443", ":8", ":0", ":44", ":5000", ":80:80", ":"]
+
+
+def _port_texts(fi: FuncInfo) -> list[str]:
+    """port-like string constants of the module that holds get_host (':80', '443', ...): the adversarial hosts
+    are built from their characters, whatever table or literal the removal is written with."""
+    out: set[str] = set()
+    for n in ast.walk(fi.module.tree):
+        if isinstance(n, ast.Constant) and isinstance(n.value, str) and re.fullmatch(r":?[0-9]{1,5}", n.value):
+            out.add(n.value)
+        elif isinstance(n, ast.Constant) and isinstance(n.value, int) and not isinstance(n.value, bool) and 0 < n.value < 65536 and n.value in (80, 443):
+            out.add(str(n.value))
+    return sorted(out)
+
+
+def _host_cases(fi: FuncInfo) -> list[str]:
+    chars = sorted({c for p in _port_texts(fi) + [":80", ":443"] for c in p})
+    names = list(_HOST_NAMES)
+    names += [f"node{c}" for c in chars if c != ":"]
+    names += [f"n{a}{b}" for a in chars for b in chars if a != ":" and b != ":"]
+    seen: set[str] = set()
+    out = []
+    for tail in _PORT_TAILS:  # the plain default ports first: the first witnesses of a finding are the realistic ones
+        for nm in names:
+            h = nm + tail
+            if h not in seen:
+                seen.add(h)
+                out.append(h)
+    return out
+
+
+def _r15_7(ctx: Ctx) -> None:
+    repo = ctx.repo
+    fi = repo.func("sansio.utils.get_host")
+    ctx.saw(fi)
+    a = fi.node.args  # type: ignore[attr-defined]
+    npos = len(a.posonlyargs + a.args)
+    if npos < 2:
+        raise AnalysisError(f"{fi.fq}: expected (scheme, host_header, server, trusted_hosts), found {fi.params}")
+    hosts = _host_cases(fi)
+    fn = CFn(fi.node, fi.module)
+    total = 0
+    for scheme in ["http", "ws", "https", "wss", "ftp", ""]:
+        port = DEFAULT_PORT.get(scheme)
+        suffix = f":{port}" if port is not None else None
+        bad: list[str] = []
+        stripped = 0
+        cases: list[tuple[str, list, str]] = [(f"Host: {h}", [scheme, h, None, None][:max(npos, 2)], h) for h in hosts]
+        if npos >= 3:
+            # no Host header: SERVER_NAME / SERVER_PORT (names without ':' - bracketing of IPv6 literals is not judged here)
+            for nm in ("example.org", "10.0.0.80", "node443"):
+                for p in (None, 80, 443, 8080, 4430):
+                    cases.append((f"server=({nm!r}, {p})", [scheme, None, (nm, p), None][:npos], nm if p is None else f"{nm}:{p}"))
+        for label, args, given in cases:
+            total += 1
+            ip = Concrete(repo)
+            try:
+                got = ip.call(fn, list(args), {})
+            except NotConcrete as x:
+                raise AnalysisError(f"R15.7: get_host({scheme!r}, {label}) cannot be evaluated from the source: {x.why}" + (f" (line {getattr(x.node, 'lineno', '?')})" if x.node is not None else ""))
+            except ConcreteRaise as x:
+                bad.append(f"{label} raises {x.what}")
+                continue
+            allowed = {given} | ({given[: -len(suffix)]} if suffix is not None and given.endswith(suffix) else set())
+            if got not in allowed:
+                bad.append(f"{label} -> {got!r}")
+            elif got != given:
+                stripped += 1
+        what = f"only the exact suffix {suffix!r} may be removed" if suffix is not None else "no default port: the value is returned as it is"
+        ctx.ob("R15.7", f"get_host(scheme={scheme!r}): the host is the given one, {what}", not bad, (f"{len(cases)} representative values evaluated, the default port was removed from {stripped}" if not bad else f"{len(bad)} of {len(cases)} values come back as a different host, e.g. " + "; ".join(bad[:4])), fi, fi.node, f"get_host keeps the host scheme {scheme or 'empty'}")
+    ctx.floor("R15.7", "(scheme, host) pairs evaluated through get_host", total, 1000)
+
+
+# ---------------------------------------------------------------------
+# R15.8  the query mapping the request reports
+
+
+_QSL = "urllib.parse.parse_qsl"
+_QSL_PARAMS = ["qs", "keep_blank_values", "strict_parsing", "encoding", "errors", "max_num_fields", "separator"]
+
+
+def _r15_8(ctx: Ctx) -> None:
+    repo = ctx.repo
+    rq = repo.cls("wrappers.request.Request")
+    owner, fa = repo.lookup(rq, "args")
+    if not isinstance(fa, FuncInfo):
+        raise AnalysisError("R15.8: wrappers.request.Request has no `args` property in its MRO")
+    ctx.saw(fa)
+    query = b"k=&a=1&k=2&e="
+    pairs = [("k", ""), ("a", "1"), ("k", "2"), ("e", "")]
+    ip = Concrete(repo)
+    ip.watch[_QSL] = lambda a, k: list(pairs)
+    me = CObj(rq.fq, {"query_string": query})
+    try:
+        got = ip.getattr_obj(me, "args", fa.node)
+    except NotConcrete as x:
+        raise AnalysisError(f"R15.8: Request.args cannot be evaluated from the source: {x.why}" + (f" (line {getattr(x.node, 'lineno', '?')})" if x.node is not None else ""))
+    except ConcreteRaise as x:
+        ctx.ob("R15.8", "Request.args parses the query string", False, f"raises {x.what} for the query {query!r}", fa, x.node or fa.node, "Request.args evaluates")
+        return
+    calls = [c for c in ip.calls if c[0] == _QSL]
+    if not calls:
+        raise AnalysisError("R15.8: Request.args does not call urllib.parse.parse_qsl (a reader of its own is not modelled)")
+    ctx.floor("R15.8", "parse_qsl calls made by Request.args", len(calls), 1)
+    for i, (_fq, cargs, ckw, cnode) in enumerate(calls):
+        tag = "" if len(calls) == 1 else f" #{i + 1}"
+        kw = dict(ckw)
+        extra = [k for k in kw if k not in _QSL_PARAMS]
+        for n, v in zip(_QSL_PARAMS, cargs):
+            kw[n] = v
+        if extra or len(cargs) > len(_QSL_PARAMS):
+            raise AnalysisError(f"R15.8: parse_qsl is called with arguments it does not have: {extra or cargs}")
+        qs = kw.get("qs")
+        whole = qs == query or qs == query.decode("ascii")
+        ctx.ob("R15.8", f"Request.args: parse_qsl{tag} reads the whole query string", whole, f"for query_string {query!r} it is given {qs!r}", fa, cnode, f"Request.args parse_qsl{tag} text")
+        kb = kw.get("keep_blank_values", False)
+        ctx.ob("R15.8", f"Request.args: parse_qsl{tag} keeps blank values", bool(kb), f"keep_blank_values={kb!r}" + ("" if kb else ": a pair the builder writes as 'k=' is dropped"), fa, cnode, f"Request.args parse_qsl{tag} keep_blank_values")
+        sp = kw.get("strict_parsing", False)
+        sep = kw.get("separator", "&")
+        mx = kw.get("max_num_fields")
+        enc = kw.get("encoding", "utf-8")
+        rest_ok = not sp and sep in ("&", b"&") and mx is None and isinstance(enc, str) and codec_kind(enc) == "U"
+        ctx.ob("R15.8", f"Request.args: parse_qsl{tag} splits at '&' only, without a field limit, non-strict, UTF-8", rest_ok, f"strict_parsing={sp!r}, separator={sep!r}, max_num_fields={mx!r}, encoding={enc!r}", fa, cnode, f"Request.args parse_qsl{tag} options")
+    handed = None
+    if isinstance(got, CMade) and len(got.args) >= 1:
+        first = got.args[0]
+        if isinstance(first, (list, tuple)):
+            handed = [tuple(x) if isinstance(x, (list, tuple)) else x for x in first]
+    elif isinstance(got, (list, tuple)):
+        raise AnalysisError("R15.8: Request.args returns a plain sequence, not a multi-dict built from the parsed pairs (shape not understood)")
+    if handed is None:
+        raise AnalysisError(f"R15.8: what Request.args returns (`{str(got)[:80]}`) is not a multi-dict class applied to the parsed pairs (shape not understood)")
+    ctx.ob("R15.8", "Request.args: every parsed pair reaches the multi-dict, in order", handed == pairs, f"parse_qsl returned {pairs}, {got.label.rsplit('.', 1)[-1]} receives {handed}", fa, fa.node, "Request.args pairs handed over")
